@@ -206,7 +206,9 @@ func (s *scn) twinCheck(h uint64, ev *pb.CommitEvent, txs []*pb.BxhTransaction, 
 		if pick < len(ll) {
 			ll[pick] = true // the neutral transaction must fail for its empty payload only
 		}
-		tr, err := t.execute(&pb.CommitEvent{Block: nb, LocalList: ll}, 12*time.Second)
+		neutralEv := &pb.CommitEvent{Block: nb, LocalList: ll}
+		s.curNeutral = neutralEv
+		tr, err := t.execute(neutralEv, 12*time.Second)
 		if err != nil {
 			s.res.Aborted = "twin: " + err.Error()
 			return
@@ -323,6 +325,27 @@ resync:
 	if pick >= 0 {
 		s.checkStoredChain(t, h, "twin after rollback and re-execution")
 	}
+	// a block below the head is replaced: the twin, at height h, is handed the variant of block h-1 (the executor
+	// rolls back two blocks), then the real blocks h-1 and h again
+	if (s.prop == "C09" || s.prop == "C12") && !s.inSetup && !s.fatal && h%3 == 0 && s.prevNeutral != nil && s.prevEv != nil && s.prevNeutral.Block.BlockHeader.Number == h-1 {
+		for j, e := range []*pb.CommitEvent{s.prevNeutral, s.prevEv, ev} {
+			tr, err = t.execute(e, 12*time.Second)
+			if err != nil {
+				s.res.Aborted = "twin deep resync: " + err.Error()
+				return
+			}
+			if j == 0 {
+				s.checkStoredChain(t, h-1, "twin after the block below its head was replaced (two-block rollback)")
+			}
+		}
+		s.res.Count("probe_executor_rollback_of_two_blocks")
+		if tr.Hash != ref.Hash {
+			s.vio("C12", "reexecute-after-two-block-rollback-differs", "", "block %d: after the block below the head had been replaced and both blocks re-executed the twin computed block hash %s, the reference %s", h, tr.Hash[:14], ref.Hash[:14])
+			s.vio("C09", "reexecute-after-two-block-rollback-differs", "", "block %d: after the block below the head had been replaced and both blocks re-executed the twin computed block hash %s, the reference %s", h, tr.Hash[:14], ref.Hash[:14])
+		}
+		s.checkStoredChain(t, h, "twin after a two-block rollback and re-execution")
+	}
+	s.prevNeutral, s.prevEv, s.curNeutral = s.curNeutral, ev, nil
 }
 
 var _ = fmt.Sprint
